@@ -7,6 +7,7 @@ package main
 
 import (
 	"fmt"
+	appparams "github.com/chain4energy/c4e-chain/app/params"
 	"math/big"
 	"sort"
 	"strings"
@@ -47,6 +48,19 @@ func (e *vestEnv) addrStr(id int) string {
 		return "c4e1notavalidaddress"
 	}
 	return e.astr[id]
+}
+
+// addrSpelled: bech32 allows the all-upper-case spelling of the same address; a share of the messages uses it for the
+// owner field of MsgCreateVestingPool (the account, and therefore the model's operation, is the same). Only there: the handlers
+// of MsgWithdrawAllAvailable and MsgSendToVestingAccount look the pools up under the string as given, so the upper-case spelling
+// of an owner is answered with "no vesting pools found" (a rejected message; recorded in DESIGN.md as an observation)
+func (e *vestEnv) addrSpelled(id int) string {
+	s := e.addrStr(id)
+	if id >= 0 && e.rng.Chance(12) {
+		e.rep.Count("address.upper_case_spelling")
+		return strings.ToUpper(s)
+	}
+	return s
 }
 
 func (e *vestEnv) poolName(id int64) string {
@@ -647,10 +661,11 @@ func runVestCase(ta *TestApp, seed uint64, idx int, rep *Report, profile string)
 			if name == nextPool {
 				nextPool++
 			}
+			ownerStr := e.addrSpelled(owner)
 			op = vestOp{kind: "create_pool", owner: owner, name: name, amount: amt,
 				term: fmt.Sprintf("OCreatePool %s %d %s %s %d", zI(int64(owner)), name, zB(amt), zI(int64(dur)), vt),
 				run: func(c sdk.Context) (*big.Int, error) {
-					_, err := e.ms.CreateVestingPool(sdk.WrapSDKContext(c), &vesttypes.MsgCreateVestingPool{Owner: e.addrStr(owner),
+					_, err := e.ms.CreateVestingPool(sdk.WrapSDKContext(c), &vesttypes.MsgCreateVestingPool{Owner: ownerStr,
 						Name: e.poolName(name), Amount: sdk.NewIntFromBigInt(amt), Duration: dur, VestingType: e.vtName(vt)})
 					return nil, err
 				}}
@@ -916,6 +931,40 @@ func runVestCase(ta *TestApp, seed uint64, idx int, rep *Report, profile string)
 			rep.Count("res.err." + op.kind)
 		}
 		e.predicates(ctx, &op, pre, res)
+		// between two operations: a governance attempt to change the vesting denomination while pools are stored. Pools do not
+		// record their denomination, so an accepted change would strand what they lock; it must be refused and change nothing
+		// (nothing changes on the unchanged tree, so the model needs no operation for it)
+		if stored := app.CfevestingKeeper.GetAllAccountVestingPools(ctx); len(stored) > 0 && rng.Chance(12) {
+			anyPool := false
+			for _, a := range stored {
+				if len(a.VestingPools) > 0 {
+					anyPool = true
+				}
+			}
+			if anyPool {
+				cc, write := ctx.CacheContext()
+				before := app.CfevestingKeeper.GetParams(ctx).Denom
+				var err error
+				func() {
+					defer func() {
+						if r := recover(); r != nil {
+							err = fmt.Errorf("panic: %v", r)
+							rep.Panics = append(rep.Panics, fmt.Sprintf("case %d step %d UpdateDenomParam: %v", idx, s, r))
+						}
+					}()
+					_, err = e.ms.UpdateDenomParam(sdk.WrapSDKContext(cc), &vesttypes.MsgUpdateDenomParam{Authority: appparams.GetAuthority(), Denom: "uother"})
+				}()
+				if err == nil {
+					write()
+				}
+				rep.Eval("C06.pool_denomination_cannot_change_while_pools_exist", err != nil && app.CfevestingKeeper.GetParams(ctx).Denom == before, idx, s,
+					fmt.Sprintf("governance changed the vesting denomination from %q to %q while %d owner entries with pools are stored: what the pools lock is stranded", before, app.CfevestingKeeper.GetParams(ctx).Denom, len(stored)))
+				if err == nil { // keep the rest of the history meaningful for the model
+					app.CfevestingKeeper.SetParams(ctx, vesttypes.Params{Denom: before})
+				}
+				rep.Count("denom_change_attempt")
+			}
+		}
 		if op.kind == "withdraw" && wantSecondWithdraw < 0 && res.ok && rng.Chance(50) {
 			wantSecondWithdraw = op.owner
 		} else {
@@ -1070,6 +1119,20 @@ func (e *vestEnv) predicates(ctx sdk.Context, op *vestOp, pre *vestSnap, res opR
 	}
 	if res.ok && op.kind == "send" {
 		rep.Eval("C08.request_within_locked_succeeds", true, c, st, "")
+	}
+	if (op.kind == "split" || op.kind == "move") && !res.ok && res.panic_ == "" && op.owner >= 0 && op.to > 0 && op.to != op.owner && op.to != e.blockedId {
+		// C07: any amount up to the sender's locked, undelegated coins can be split off / everything locked can be moved
+		_, existed := pre.accBytes[op.to]
+		a0, _ := app.AccountKeeper.UnmarshalAccount(pre.accBytes[op.owner])
+		_, isCva := a0.(*vestingtypes.ContinuousVestingAccount)
+		if !existed && isCva {
+			if op.kind == "split" && op.coins.IsValid() && !op.coins.IsZero() && op.coins.IsAllLTE(pre.locked[op.owner]) {
+				rep.Eval("C07.split_within_locked_succeeds", false, c, st, fmt.Sprintf("%s failed although the sender has %s locked", op.term, pre.locked[op.owner]))
+			}
+			if op.kind == "move" && !pre.locked[op.owner].IsZero() {
+				rep.Eval("C07.move_of_locked_coins_succeeds", false, c, st, fmt.Sprintf("%s failed although the sender has %s locked", op.term, pre.locked[op.owner]))
+			}
+		}
 	}
 	if op.kind == "move_denoms" && res.panic_ == "" && op.owner >= 0 && op.to > 0 && op.to != op.owner && op.to != e.blockedId {
 		// C07: whatever is locked (and undelegated) in the selected denominations can be moved to an absent, unblocked recipient
